@@ -26,6 +26,19 @@ from .grammodel import C, INT, INF, ModelGrammar, ann, reference, uni
 
 RANDOM_NODE = "geneticengine.representations.tree.treebased:random_node"
 INI_MOD = "geneticengine.representations.tree.initializations"
+DSGE_MOD = "geneticengine.representations.grammatical_evolution.dynamic_structured_ge"
+
+
+class Gene:
+    """a gene read from a genotype: only its residue matters to the decider, and the residue is a scripted choice"""
+    def __init__(self, pick):
+        self.pick = pick
+
+    def model_mod(self, n: int):
+        return 0 if n > 8 else self.pick(n)
+
+    def __repr__(self):
+        return "<gene>"
 
 CREATION_FAMILY: list[ModelGrammar] = [
     ModelGrammar("arithmetic", "Expr", {
@@ -140,15 +153,49 @@ def well_typed(g: ModelGrammar, v: Any, t: TypeV) -> bool:
 
 
 # --------------------------------------------------------------------------------------------- interpretation
+def build_decider(prog, dcls, genotype_backed: bool, max_depth: int, call_model, genv: dict):
+    """the decider object, built by interpreting its own constructor (super().__init__ chains followed, validate() included)"""
+    init = prog.lookup_method(dcls, "__init__")
+    if init is None:
+        return Obj(dcls.name, {}, dcls.fullname), ""
+    it = Interp(prog, dcls, lambda *_: None, call_model, max_depth=12, max_traces=2)
+    it.strict_keys = True
+    ps = init.params
+    env = dict(genv)
+    env["self"] = Sym("self")
+    first = Obj("Genotype", {"random": Sym("random"), "dna": {}}, DSGE_MOD + ".Genotype") if genotype_backed else Sym("random")
+    vals = [first, Sym("grammar"), max_depth]
+    for p_, v in zip(ps[1:], vals):
+        env[p_] = v
+    a = init.node.args
+    names_ = [x.arg for x in a.posonlyargs + a.args]
+    for p_, d in zip(names_[len(names_) - len(a.defaults):], a.defaults):
+        if p_ not in env and isinstance(d, ast.Constant):
+            env[p_] = d.value
+    try:
+        runs = it.run(init, env)
+    except Budget:
+        return None, f"{dcls.name}.__init__: a branch depends on something the model does not determine ({it.fork_sites[:1]})"
+    trace, rv, notes = runs[0]
+    raised = [e for e in trace if e.kind == "raise"]
+    if raised:
+        return None, f"RAISES {raised[-1].name}"
+    if notes:
+        return None, f"{dcls.name}.__init__: {notes[0]}"
+    fields = {k[5:]: v for k, v in it.envs[0].items() if k.startswith("self.") and k.count(".") == 1}
+    return Obj(dcls.name, fields, dcls.fullname), ""
+
+
 def enumerate_creation(ctx, g: ModelGrammar, decider_cls: str, max_depth: int, cap: int = 4000):
     """(programs: {text: value}, failures: [(script, exception name)], notes, runs) over all decision scripts"""
     prog = ctx.prog
     fn = prog.functions.get(RANDOM_NODE)
     if fn is None:
         raise AnalysisError(f"anchor function missing: {RANDOM_NODE}")
-    dcls = prog.classes.get(f"{INI_MOD}.{decider_cls}")
+    dcls = prog.classes.get(f"{INI_MOD}.{decider_cls}") or prog.classes.get(f"{DSGE_MOD}.{decider_cls}")
     if dcls is None:
         raise AnalysisError(f"anchor class missing: {decider_cls}")
+    genotype_backed = dcls.module.name == DSGE_MOD
     ref = reference(g, 0)
     D = ref["distance"]
 
@@ -170,22 +217,26 @@ def enumerate_creation(ctx, g: ModelGrammar, decider_cls: str, max_depth: int, c
     recursive = set(C(n) for n in ref["recursive"])
     state = {"script": [], "pos": 0, "widths": []}
 
+    def pick(width: int) -> int:
+        i = state["pos"]
+        if i >= len(state["script"]):
+            state["script"].append(0)
+            state["widths"].append(width)
+        else:
+            state["widths"][i] = width
+        state["pos"] += 1
+        return min(state["script"][i], width - 1)
+
     def call_model(it, call, env, args, kwargs):
         nm = call_name(call)
         recv = it.ev(call.func.value, env, 9) if isinstance(call.func, ast.Attribute) else None
+        if nm == "get" and isinstance(recv, Obj) and recv.cls == "Genotype" and len(args) == 2:
+            return Gene(pick)        # the gene at that position: any value (the genotype is extended on demand)
         if isinstance(recv, Sym) and recv.tag == "random":
             if nm == "choice" and len(args) == 1 and isinstance(args[0], list):
                 if not args[0]:
                     it.throw("IndexError: choice from an empty list", call)
-                i = state["pos"]
-                if i >= len(state["script"]):
-                    state["script"].append(0)
-                    state["widths"].append(len(args[0]))
-                else:
-                    state["widths"][i] = len(args[0])
-                state["pos"] += 1
-                k = state["script"][i]
-                return args[0][k] if k < len(args[0]) else args[0][-1]
+                return args[0][pick(len(args[0]))]
             if nm in ("randint", "random_float", "random_bool", "normalvariate"):
                 return Sym("int")
             return None
@@ -231,11 +282,18 @@ def enumerate_creation(ctx, g: ModelGrammar, decider_cls: str, max_depth: int, c
         it.allow_recursion = True
         it.strict_keys = True
         it.while_cap = 12
-        decider = Obj(decider_cls, {"random": Sym("random"), "grammar": Sym("grammar"), "max_depth": max_depth}, dcls.fullname)
+        genv = {"grammar.alternatives": dict(alternatives), "grammar.all_nodes": set(all_nodes), "grammar.recursive_prods": set(recursive),
+                "grammar.starting_symbol": C(g.start)}
+        decider, why_not = build_decider(prog, dcls, genotype_backed, max_depth, call_model, genv)
+        if decider is None:
+            if why_not.startswith("RAISES"):
+                failures.append(([], "the decider's constructor: " + why_not[7:]))
+            else:
+                notes.append(why_not)
+            break
         p = fn.params
-        env = {p[0]: Sym("random"), p[1]: Sym("grammar"), p[2]: C(g.start), p[3]: decider,
-               "grammar.alternatives": dict(alternatives), "grammar.all_nodes": set(all_nodes), "grammar.recursive_prods": set(recursive),
-               "grammar.starting_symbol": C(g.start)}
+        env = dict(genv)
+        env.update({p[0]: Sym("random"), p[1]: Sym("grammar"), p[2]: C(g.start), p[3]: decider})
         try:
             res = it.run(fn, env)
         except Budget:
@@ -344,7 +402,7 @@ def creation_rule(ctx, rid: str, aspect: str) -> int:
     offs = full_offsets(ctx)
     for g in CREATION_FAMILY:
         dmin = reference(g, 0)["distance"][g.start]
-        for dec in ("MaxDepthDecider", "PositionIndependentGrowDecider", "FullDecider"):
+        for dec in ("MaxDepthDecider", "PositionIndependentGrowDecider", "FullDecider", "DynamicSGEDecider"):
             for d in range(dmin, top + 1):
                 limit = d
                 if dec == "FullDecider":
@@ -352,7 +410,7 @@ def creation_rule(ctx, rid: str, aspect: str) -> int:
                         continue
                     limit = d + offs[0][2]          # the limit the full initializer configured with d hands to its decider
                 programs, failures, notes, nruns = runs_for(g, dec, limit)
-                dcl = ctx.prog.classes.get(f"{INI_MOD}.{dec}")
+                dcl = ctx.prog.classes.get(f"{INI_MOD}.{dec}") or ctx.prog.classes.get(f"{DSGE_MOD}.{dec}")
                 site = ctx.prog.lookup_method(dcl, "choose_production_alternatives") if dcl else fn
                 label = f"{dec}, limit {d}" + (f" (decider built with {limit})" if limit != d else "")
                 construct = f"model grammar '{g.name}', {label}: "
@@ -389,10 +447,11 @@ def creation_rule(ctx, rid: str, aspect: str) -> int:
                                              + (f"{len(extra)} program(s) outside the bounded language can be produced, e.g. {extra[0]}" if extra else ""))
                         ctx.ob(rid, site, site.node, construct + "the producible programs are exactly the well-typed programs of depth <= limit", ok, why,
                                witness={"language": len(L), "produced": len(got), "scripts": nruns})
-                    elif dec == "PositionIndependentGrowDecider":
+                    elif dec in ("PositionIndependentGrowDecider", "DynamicSGEDecider"):
                         extra = sorted(got - L)
                         ok = not extra and bool(got)
-                        ctx.ob(rid, site, site.node, construct + "position-independent grow never leaves the bounded language", ok,
+                        ctx.ob(rid, site, site.node, construct + ("position-independent grow never leaves the bounded language" if dec.startswith("Position")
+                                                                  else "programs mapped from dynamic-SGE genotypes stay in the bounded language"), ok,
                                "" if ok else (f"it produces {extra[0]}, outside the bounded language" if extra else "it produces no program"),
                                witness={"language": len(L), "produced": len(got), "scripts": nruns})
                     else:
